@@ -44,6 +44,26 @@ class ExcValue(Exception):
         return hash(('ExcValue', self.args))
 
 
+class Opaque:
+    """An input value that can be neither copied nor pickled (a client object owning a lock, a generator, ...): the engine
+    has to pass the caller's object through as it is.  Cases name it by the marker string '@opaque'."""
+
+    def __deepcopy__(self, memo):
+        raise TypeError('cannot deep-copy an Opaque')
+
+    def __copy__(self):
+        raise TypeError('cannot copy an Opaque')
+
+    def __reduce_ex__(self, protocol):
+        raise TypeError('cannot pickle an Opaque')
+
+    def __repr__(self) -> str:
+        return "'@opaque'"
+
+
+OPAQUE = Opaque()
+
+
 class Ambig:
     """A value whose truth value is ambiguous (numpy / pandas style): bool(v) raises."""
 
@@ -131,6 +151,7 @@ class World:
         self.saved: t.Dict[tuple, t.Any] = {}
         self.persist: t.Optional[dict] = None      # write-once store contents that outlive this world (C07: keyed by pipeline id)
         self.pipeline_ids: t.List[tuple] = []
+        self.given: t.Dict[int, dict] = {}          # rid -> what the caller passed to chart.run (pid / inputs / meta)
         self.sync_ctx = None
         self.loop = None
         self.njobs = 0
@@ -421,20 +442,48 @@ class RecMgr:
         if mine != (id(CUR), rid):
             CUR.log.append(('anomaly', rid, 'manager-instance-shared-between-runs', f'{type(self).__name__} of run {mine[1]} also serves run {rid}'))
 
+    def _ctx(self, ctx, result=None) -> None:
+        # the context handed to every hook is the one of THIS run: the caller's id, input_kwargs and meta
+        rid = RUN.get()
+        g = CUR.given.get(rid) if CUR is not None else None
+        if g is None:
+            return
+        bad = []
+        if g.get('pid') is not None and getattr(ctx, 'pipeline_id', None) != g['pid']:
+            bad.append(f'pipeline_id {getattr(ctx, "pipeline_id", None)!r} != {g["pid"]!r}')
+        if getattr(ctx, 'meta', None) != g['meta']:
+            bad.append(f'meta {getattr(ctx, "meta", None)!r} != {g["meta"]!r}')
+        ik = getattr(ctx, 'input_kwargs', None)
+        if not isinstance(ik, dict) or {k: v for k, v in ik.items() if k != 'additional_data'} != g['inputs']:
+            bad.append(f'input_kwargs {ik!r} != {g["inputs"]!r}')
+        if getattr(ctx, 'model_name', None) != 'mc':
+            bad.append(f'model_name {getattr(ctx, "model_name", None)!r}')
+        if result is not None and g.get('pid') is not None and getattr(result, 'pipeline_id', None) != g['pid']:
+            bad.append(f'result.pipeline_id {getattr(result, "pipeline_id", None)!r} != {g["pid"]!r}')
+        first = self.__dict__.setdefault('_mc_ctx', ctx)
+        if first is not ctx:
+            bad.append('a different context object than in the earlier hooks of this run')
+        for b in bad:
+            CUR.log.append(('anomaly', rid, 'context-mismatch', b))
+
     async def on_pipeline_start(self, ctx) -> None:
         self._bind()
+        self._ctx(ctx)
         await collab('pipeline_start', None, None, self.idx)
 
     async def on_pipeline_complete(self, ctx, result) -> None:
         self._bind()
+        self._ctx(ctx, result)
         await collab('pipeline_complete', None, result, self.idx)
 
     async def on_node_start(self, ctx, node_id) -> None:
         self._bind()
+        self._ctx(ctx)
         await collab('node_start', node_id, None, self.idx)
 
     async def on_node_complete(self, ctx, node_id, error) -> None:
         self._bind()
+        self._ctx(ctx)
         await collab('node_complete', node_id, error, self.idx)
 
 
@@ -450,7 +499,7 @@ def partial_mgr(missing: t.Sequence[str]) -> type:
     implementing only some of them is legal)."""
     key = tuple(sorted(missing))
     if key not in _PARTIAL:
-        ns = {'idx': 0, '_bind': RecMgr._bind}
+        ns = {'idx': 0, '_bind': RecMgr._bind, '_ctx': RecMgr._ctx}
         for kind in ('pipeline_start', 'pipeline_complete', 'node_start', 'node_complete'):
             if kind not in key:
                 ns['on_' + kind] = getattr(RecMgr, 'on_' + kind)
@@ -501,6 +550,8 @@ class RecStore:
             w.add_ext(External(f'{pre}save:{node_id}#{k}', 'L',
                                lambda lp, fut=fut: lp.call_soon(_safe_set, fut), fut))
             await fut
+        # the write is complete only here: a save that is cancelled while it is suspended has stored nothing
+        w.log.append(('saved', rid, node_id, k, w.now()))
 
     async def load(self, node_id):
         return CUR.saved[(RUN.get(), node_id)]
